@@ -666,6 +666,64 @@ func c06Reconnect() *sched.Scenario {
 		}}
 }
 
+// ---------------------------------------------------------------- C07
+
+// c07RefreshVsExpiry: a refresh (CreatePermission / ChannelBind for an existing entry) arrives at the
+// instant the entry's timer fires (timeout 1 s, refresh sent 1 ns before). Whatever the order of the timer
+// goroutine and the request: once the refresh is answered with success, the entry authorises relaying for
+// one full timeout from then on - data sent half a timeout later reaches the peer.
+func c07RefreshVsExpiry(kind string) *sched.Scenario {
+	return &sched.Scenario{Name: "c07-" + kind + "-refresh-at-the-expiry-instant", Bound: bound(), FreeBound: 3, Opt: opt,
+		Body: func(*vsched.Sched) (func() []string, func()) {
+			cfg := sched.BCfg{Perm: time.Second, CB: func(string) { vsched.Point("callback", "cb") }}
+			if kind == "chan" {
+				cfg = sched.BCfg{Chan: time.Second, Perm: 10 * time.Second, CB: cfg.CB}
+			}
+			w := sched.NewBW(cfg)
+			c := w.NewClient("c1")
+			pa := w.NewPeer("A")
+			a := vtx.PeerSpec["A"]
+			var nt notes
+			req := func() *wire.Msg {
+				if kind == "chan" {
+					return c.Do(wire.ChannelBind, chanAttrs(0x4000, "A"))
+				}
+
+				return c.Do(wire.CreatePermission, peer("A"))
+			}
+			vsched.Go("client", func() {
+				c.Do(wire.Allocate, udp)
+				req()
+				vsched.IdleSleep(time.Second - time.Nanosecond)
+				vsched.Mark()
+				r := req()
+				nt.set("refresh", fmt.Sprintf("%d/%d", r.Class, r.ErrorCode()))
+				vsched.IdleSleep(500 * time.Millisecond)
+				pa.Drain()
+				if kind == "chan" {
+					c.Send(wire.ChannelData(0x4000, []byte("half-a-timeout-after-the-refresh"), false))
+				} else {
+					c.Send(wire.New(wire.Send, wire.Indication, c.NextTx()).XorAddr(wire.AttrXORPeerAddress, a.IP, a.Port).Str(wire.AttrData, "half-a-timeout-after-the-refresh").Bytes())
+				}
+				vsched.IdleSleep(100 * time.Millisecond)
+				nt.set("delivered", fmt.Sprint(pa.Pending()))
+			})
+
+			return func() []string {
+				switch {
+				case nt.get("delivered") == "":
+					return []string{"c07:client-never-completed"}
+				case nt.get("refresh") != fmt.Sprintf("%d/0", wire.Success):
+					return nil // a refused refresh promises nothing (either order is legitimate for the request itself)
+				case nt.get("delivered") != "1":
+					return []string{"c07:refresh-answered-success-but-the-entry-does-not-authorise-half-a-timeout-later:" + kind}
+				}
+
+				return nil
+			}, func() { _ = w.Srv.Close() }
+		}}
+}
+
 func run(t *testing.T, prop string, scs ...*sched.Scenario) {
 	r := rep.New(prop)
 	defer r.Write()
@@ -678,6 +736,7 @@ func run(t *testing.T, prop string, scs ...*sched.Scenario) {
 }
 
 func TestC02Sched(t *testing.T) { run(t, "C02", c02ExpiryRace()) }
+func TestC07Sched(t *testing.T) { run(t, "C07", c07RefreshVsExpiry("perm"), c07RefreshVsExpiry("chan")) }
 func TestC06Sched(t *testing.T) { run(t, "C06", c06Realloc(), c06ReallocVsTimer(), c06Reconnect()) }
 func TestC04Sched(t *testing.T) { run(t, "C04", c04TwoConns()) }
 func TestC16Sched(t *testing.T) { run(t, "C16", c16TwoBinds(), c16BindVsTimeout()) }
